@@ -29,7 +29,7 @@ ASSUMPTIONS = [
 OUTSIDE = ['trees with more nodes than the bound; more than three entries '
            'in one replacement map; leaf texts longer than one character']
 
-KINDS = 8
+KINDS = 9
 
 
 def bounds(tier):
@@ -115,6 +115,11 @@ def _scenario(c, forest, Node):
         idrepl(c['p1'], M.DELETE)
         idrepl(c['p2'], v)
         skey, sval = k, [w, k]
+    elif kind == 8:
+        # identity replacement that contains the structural key: inserted as
+        # given, the structural rule must not rewrite inside it
+        idrepl(c['p1'], [v, k])
+        skey, sval = k, w
     if skey is not None:
         repl[_mk(Node, skey)] = _mk(Node, sval)
     return exprs, model, repl, path_repl, skey, sval
@@ -220,7 +225,7 @@ def make(forests, kind):
         if single:
             assume(len(forest) == 1)
         allpos = _positions(forest)
-        uses_p1 = kind in (3, 4, 5, 6, 7)
+        uses_p1 = kind in (3, 4, 5, 6, 7, 8)
         uses_p2 = kind in (5, 7)
         if uses_p1:
             assume(0 <= p1 < len(allpos))
@@ -231,7 +236,7 @@ def make(forests, kind):
             assume(not _nested(allpos[p1], allpos[p2]))
         else:
             assume(p2 == 0)
-        if kind not in (0, 1, 2, 6, 7):
+        if kind not in (0, 1, 2, 6, 7, 8):
             assume(len(k) == 0)
         if kind in (0, 4):
             assume(len(w) == 0)
